@@ -295,14 +295,24 @@ def collect(repo):
 
     def fp4_ok(*names):
         return all(hasattr(M, n) and body_of(getattr(M, n)) == FP4[n] for n in names)
+    FP4.update({
+        "_start_category": "term = attrs_d.get('term')\nscheme = attrs_d.get('scheme', attrs_d.get('domain'))\nlabel = attrs_d.get('label')\nself._add_tag(term, scheme, label)\nself.push('category', 1)",
+        "_end_category": "value = self.pop('category')\nif not value:\n    return\ncontext = self._get_context()\ntags = context.setdefault('tags', [])\nif value and len(tags) and (not tags[-1]['term']):\n    tags[-1]['term'] = value\nelse:\n    self._add_tag(value, None, None)",
+        "_add_tag": "context = self._get_context()\ntags = context.setdefault('tags', [])\nif not term and (not scheme) and (not label):\n    return\nvalue = FeedParserDict(term=term, scheme=scheme, label=label)\nif value not in tags:\n    tags.append(value)",
+        "_start_enclosure": "attrs_d = self._enforce_href(attrs_d)\ncontext = self._get_context()\nattrs_d['rel'] = 'enclosure'\ncontext.setdefault('links', []).append(FeedParserDict(attrs_d))",
+    })
     KINDS4 = {
+        # stage 5: categories (start / end handlers reached directly, by alias or one-line delegation) and enclosures (NO end handler: unknown_endtag falls back to pop)
+        "category": ("category", "category", ("_start_category", "_end_category", "_add_tag")),
+        "enclosure": ("enclosure", None, ("_start_enclosure", "_enforce_href")),
         "link": ("link", "link", ("_start_link", "_end_link", "_enforce_href", "resolve_uri", "_last_item")),
         "guid": ("guid", "guid", ("_start_guid", "_end_guid", "_save", "_start_item")),
     }
     stage4 = []
     for n in handlers(strict, "_start_"):
         for kind, (st, en, need) in KINDS4.items():
-            if fp4_ok(*need) and reaches(n, "_start_", st) and reaches(n, "_end_", en):
+            ends_ok = reaches(n, "_end_", en) if en is not None else (n == st and not hasattr(M, "_end_" + n))
+            if fp4_ok(*need) and reaches(n, "_start_", st) and ends_ok:
                 stage4.append((Chars(n), Chars(kind)))
                 break
     T["Mixin"] = [
